@@ -227,16 +227,72 @@ Lemma interpolated_string_factor_sound P : sound P a_lfactor interpolated_string
 Proof. unfold interpolated_string_factor. apply wr_sound. eapply map_sound; [apply interpolated_string_sound|reflexivity]. Qed.
 
 (* ---------------------------------------------------------------- argument lists *)
+(* the pieces of the tail of an argument list after its current item: the item's comma, then the remaining items *)
+Definition tail_atoms {T} (f : T -> list atom) (tail : arg_items T) : list atom :=
+  match tail with
+  | (_, oc) :: more => a_opt a_char oc ++ a_args f more
+  | [] => []
+  end.
+Lemma a_args_cons {T} (f : T -> list atom) (x : located T * option (located N)) l :
+  a_args f (x :: l) = a_loc f (fst x) ++ a_opt a_char (snd x) ++ a_args f l.
+Proof. unfold a_args. cbn [map concat]. rewrite <- app_assoc. reflexivity. Qed.
+
+Lemma arg_list_loop_spec {T} (f : T -> list atom) (item : parser T) : sound notriv f item ->
+  forall fuel acc cur st i st' res, arg_list_loop fuel item acc cur st i = (st', res) ->
+    sle st st' /\
+    match res with
+    | Ok v r => exists oc more, v = acc ++ (cur, oc) :: more /\
+        (rem i = exact (tail_atoms f ((cur, oc) :: more)) ++ rem r /\ tiling (off i) (pieces (tail_atoms f ((cur, oc) :: more))) (off r)) /\
+        Forall atom_ok (tail_atoms f ((cur, oc) :: more)) /\
+        (inv st -> lossy (tail_atoms f ((cur, oc) :: more)) = true -> errors st' <> [])
+    | _ => True
+    end.
+Proof.
+  intros Hi fuel. induction fuel as [|g IH]; intros acc cur st i st' res E; cbn [arg_list_loop] in E.
+  - inversion E; subst. split; [apply sle_refl|exact I].
+  - change (slot W_arg_list 2) with W_ws in E.
+    destruct (wr (slot W_arg_list 1) (char_p 44) st i) as [st1 [comma r| |x]] eqn:Ec;
+      destruct (wr_char_sound anyP _ _ _ _ _ _ Ec) as [Hs1 Hr1].
+    + destruct (wr W_ws item st1 r) as [st2 [next r2| |y]] eqn:En;
+        destruct (wr_sound_after anyP f W_ws item Hi _ _ _ _ En) as [Hs2 Hr2].
+      * destruct (IH _ _ _ _ _ _ E) as [Hs3 Hr3]. split; [eapply sle_trans; [exact Hs1|eapply sle_trans; eassumption]|].
+        destruct res as [v r3| |]; auto. destruct Hr3 as [oc [more [Hv [[E3 T3] [O3 L3]]]]].
+        exists (Some comma), ((next, oc) :: more). split; [rewrite Hv, <- app_assoc; reflexivity|].
+        destruct Hr1 as [H1 [O1 L1]]. destruct Hr2 as [H2 [O2 L2]]. destruct (H1 I) as [E1 T1]. destruct (H2 I) as [E2 T2].
+        cbn [tail_atoms a_opt] in *. rewrite a_args_cons. cbn [fst snd].
+        split; [split|split].
+        -- rewrite !exact_app, <- !app_assoc. rewrite E1, E2, E3. rewrite !exact_app, <- !app_assoc. reflexivity.
+        -- rewrite !pieces_app. eapply tiling_app; [exact T1|]. eapply tiling_app; [exact T2|]. rewrite <- pieces_app. exact T3.
+        -- apply Forall_app. split; [assumption|]. apply Forall_app. split; assumption.
+        -- intros Hinv Hl. rewrite !lossy_app in Hl. apply orb_true_iff in Hl. destruct Hl as [Hl|Hl].
+           ++ apply (proj2 Hs3), (proj2 Hs2). apply L1; assumption.
+           ++ apply orb_true_iff in Hl. destruct Hl as [Hl|Hl].
+              ** apply (proj2 Hs3). apply L2; [apply (proj1 Hs1); assumption|assumption].
+              ** apply L3; [apply (proj1 Hs2), (proj1 Hs1); assumption|]. rewrite lossy_app. exact Hl.
+      * inversion E; subst. split; [eapply sle_trans; eassumption|exact I].
+      * inversion E; subst. split; [eapply sle_trans; eassumption|exact I].
+    + inversion E; subst. split; [assumption|]. exists None, []. split; [reflexivity|].
+      cbn [tail_atoms a_opt]. unfold a_args. cbn. split; [split; reflexivity|]. split; [constructor|]. intros _ H; discriminate.
+    + inversion E; subst. split; [assumption|exact I].
+Qed.
+
 Lemma arg_list_sound {T} P (f : T -> list atom) (item : parser T) :
   sound notriv f item -> sound P (a_args f) (arg_list item).
 Proof.
-  intros Hi. unfold arg_list. change (slot W_arg_list 0) with W_ws. change (slot W_arg_list 2) with W_ws.
-  eapply map_sound.
-  - apply pair_sound.
-    + apply many0_sound. apply pair_sound; [apply (wr_sound_after anyP f W_ws); exact Hi|apply wr_char_sound].
-    + apply (wr_sound_after anyP f W_ws). exact Hi.
-  - intros [l last]. unfold a_args. cbn [fst snd]. rewrite map_app, concat_app. cbn. rewrite !app_nil_r.
-    f_equal. induction l as [|[a c] l IH]; cbn; [reflexivity|]. rewrite IH. reflexivity.
+  intros Hi. apply sound_any. intros st i st' res E. unfold arg_list in E. change (slot W_arg_list 0) with W_ws in E.
+  destruct (wr W_ws item st i) as [st1 [first r| |x]] eqn:Ef; destruct (wr_sound_after anyP f W_ws item Hi _ _ _ _ Ef) as [Hs1 Hr1].
+  - destruct (arg_list_loop_spec f item Hi _ _ _ _ _ _ _ E) as [Hs2 Hr2]. split; [eapply sle_trans; eassumption|].
+    destruct res as [v r2| |]; auto. destruct Hr2 as [oc [more [Hv [[E2 T2] [O2 L2]]]]]. cbn [app] in Hv. subst v.
+    destruct Hr1 as [H1 [O1 L1]]. destruct (H1 I) as [E1 T1]. rewrite a_args_cons. cbn [fst snd tail_atoms] in *.
+    split; [intros _; split|split].
+    + rewrite exact_app, <- app_assoc, <- E2. exact E1.
+    + rewrite pieces_app. eapply tiling_app; eassumption.
+    + apply Forall_app. split; assumption.
+    + intros Hinv Hl. rewrite lossy_app in Hl. apply orb_true_iff in Hl. destruct Hl as [Hl|Hl].
+      * apply (proj2 Hs2). apply L1; assumption.
+      * apply L2; [apply (proj1 Hs1); assumption|assumption].
+  - inversion E; subst. split; [assumption|exact I].
+  - inversion E; subst. split; [assumption|exact I].
 Qed.
 Lemma identifier_arg_list_sound P : sound P (a_args (fun s => [AText None s])) identifier_arg_list.
 Proof. apply arg_list_sound. apply identifier_name_sound. Qed.
@@ -267,7 +323,7 @@ Proof. reflexivity. Qed.
 Lemma expression_parens_sound P p : expr_parser_ok p -> sound P a_lfactor (expression_parens p).
 Proof.
   intros [Hp _]. unfold expression_parens. apply wr_sound. eapply map_sound.
-  - apply pair_sound; [apply wr_char_sound|]. apply pair_sound; [apply Hp|apply wr_char_sound].
+  - apply pair_sound; [apply wr_char_sound|]. apply pair_sound; [apply nested_sound, Hp|apply wr_char_sound].
   - at_eq.
 Qed.
 Lemma fn_call_parts_sound P p m : expr_parser_ok p ->
@@ -278,7 +334,7 @@ Proof.
   - apply pair_sound.
     + destruct m; apply wr_text_sound, identifier_name_sound.
     + apply pair_sound; [apply wr_char_sound|]. apply pair_sound; [|apply wr_char_sound].
-      apply opt_sound. apply expression_arg_list_sound. assumption.
+      apply opt_sound. apply nested_sound. apply expression_arg_list_sound. assumption.
   - intros [name [lp [args rp]]]. reflexivity.
 Qed.
 Lemma fn_call_impl_sound P p m : expr_parser_ok p -> sound P a_lfactor (fn_call_impl p m).
@@ -304,9 +360,10 @@ Proof.
   intros Hp. unfold expression_factor. apply wr_sound. apply alt_sound.
   - eapply map_sound; [apply expression_factor_inner_sound; assumption|]. reflexivity.
   - eapply map_sound.
-    + apply pair_sound; [apply opt_sound, wr_char_sound|]. apply pair_sound; [apply opt_sound, wr_char_sound|].
+    + apply pair_sound; [apply (peek_sound anyP (fun c => [AText None [c]])), terminal_sound, satisfy_terminal|].
+      apply pair_sound; [apply opt_sound, wr_char_sound|]. apply pair_sound; [apply opt_sound, wr_char_sound|].
       apply expression_factor_inner_sound. assumption.
-    + intros [tn [tg f]]. reflexivity.
+    + intros [c [tn [tg f]]]. reflexivity.
 Qed.
 
 Lemma fold_expressions_atoms x l :
@@ -530,7 +587,7 @@ Section Statements.
   Proof.
     unfold block. eapply map_sound_equiv.
     - apply pair_sound; [apply wr_char_sound|]. apply pair_sound.
-      + apply many0_sound with (sa := a_token). apply alt_sound; [apply Hstmt|apply error_impl_sound].
+      + apply nested_sound. apply many0_sound with (sa := a_token). apply alt_sound; [apply Hstmt|apply error_impl_sound].
       + apply (expect_sound anyP a_char _ MClosing [AMissing (mkLoc 0 0 0 None)]); try reflexivity; [apply wr_char_sound| |discriminate].
         repeat constructor.
     - intros [l [inner [r|]]]; cbn [fst snd a_block].
